@@ -98,7 +98,8 @@ fn real_apply(kind: &str, rs: &mut Ruleset, op: &Op) -> bool {
             let new = if kind == "override" {
                 NewPushRule::Override(NewConditionalPushRule::new(rid.to_string(), vec![], vec![Action::Notify]))
             } else {
-                NewPushRule::Content(NewPatternedPushRule::new(rid.to_string(), "p".to_owned(), vec![Action::Notify]))
+                // a re-inserted rule comes with a different pattern each time (the identity of a rule is its id alone)
+                NewPushRule::Content(NewPatternedPushRule::new(rid.to_string(), format!("p-{}-{}", after.unwrap_or("none"), before.unwrap_or("none")), vec![Action::Notify]))
             };
             rs.insert(new, *after, *before).is_ok()
         }
